@@ -3,25 +3,29 @@
 # Regression of the seeded changes against scratch worktrees (<worktree-base>/<property>, one git
 # worktree of /repo per property, created on demand and brought to /repo's HEAD), through
 # tools/seedtry.sh (VERIF_REPO runs: /repo itself is not touched, no evidence is written).
-# One line per seed in out/seedall.log: CAUGHT / MISSED / INCONCLUSIVE.
+# Runs every check named in the seed's meta.json.  One line per seed in out/seedall.log (or $SEEDALL_LOG):
+# CAUGHT / MISSED / INCONCLUSIVE.
 export GOFLAGS=-mod=mod GOPROXY=off GOSUMDB=off GOTOOLCHAIN=local
 base="$1"; shift
 cd /verif || exit 2
 H=$(git -C /repo rev-parse HEAD)
 seeds="$*"
 [ -z "$seeds" ] && seeds=$(ls seeded)
-: > out/seedall.log
+LOG=${SEEDALL_LOG:-out/seedall.log}
+: > "$LOG"
 for sid in $seeds; do
   prop=$(python3 -c "import json;print(json.load(open('seeded/$sid/meta.json'))['property'])")
   pkg=$(python3 -c "import json,re;print(re.search(r'belongs in (.*)/\)',json.load(open('seeded/$sid/meta.json'))['demonstration']).group(1))")
   wt="$base/$prop"
   if [ ! -d "$wt" ]; then git -C /repo worktree add -q --detach "$wt" "$H" || exit 2; fi
   git -C "$wt" checkout -q -- . ; git -C "$wt" clean -fdq; git -C "$wt" checkout -q --detach "$H"
-  sh tools/seedtry.sh "/verif/seeded/$sid" "$wt" "$pkg" "$prop" > "out/seedall_$sid.log" 2>&1
+  checks=$(python3 -c "import json,re;print(' '.join(re.findall(r'check (C[0-9]+) ',' '.join(json.load(open('seeded/$sid/meta.json'))['checks_run']))))")
+  sh tools/seedtry.sh "/verif/seeded/$sid" "$wt" "$pkg" $checks > "out/seedall_$sid.log" 2>&1
   if grep -q "does not apply\|does not build\|suite FAILS\|demo PASSES with\|demo FAILS without" "out/seedall_$sid.log"; then v="INCONCLUSIVE($(grep -o 'does not apply\|does not build\|suite FAILS\|demo PASSES with\|demo FAILS without' out/seedall_$sid.log | head -1))";
-  elif grep -q "^TRY $prop rc=1" "out/seedall_$sid.log"; then v=CAUGHT;
-  elif grep -q "^TRY $prop rc=0" "out/seedall_$sid.log"; then v=MISSED;
+  elif grep -q "^TRY C[0-9]* rc=1" "out/seedall_$sid.log"; then v=CAUGHT;
+  elif grep -q "^TRY C[0-9]* rc=2" "out/seedall_$sid.log"; then v="INCONCLUSIVE(rc2)";
+  elif grep -q "^TRY C[0-9]* rc=0" "out/seedall_$sid.log"; then v=MISSED;
   else v="INCONCLUSIVE(rc)"; fi
-  echo "$sid $v $(grep '^TRY' out/seedall_$sid.log | cut -c1-220)" >> out/seedall.log
+  echo "$sid $v $(grep '^TRY' out/seedall_$sid.log | cut -c1-220 | tr '\n' ' ')" >> "$LOG"
 done
-echo "seedall done" >> out/seedall.log
+echo "seedall done" >> "$LOG"
